@@ -38,9 +38,10 @@ VARIABLES reqs,     \* the script (abstract), fixed per behaviour
           hlog,     \* requests handed to a handler, in order
           out,      \* responses written: sequence of [i, kind \in {"interim","final","reject"}, close]
           topen,    \* tracer: a DoStart without DoFinish is outstanding
+          pairReq,  \* tracer: the request handed to a handler inside the open pair (0: none)
           tlog      \* tracer calls: sequence of [t \in {"start","finish"}, req] (req = 0: no request handled)
 
-vars == <<reqs, cfg, sent, eof, rd, phase, cur, cons, interim, hlog, out, topen, tlog>>
+vars == <<reqs, cfg, sent, eof, rd, phase, cur, cons, interim, hlog, out, topen, pairReq, tlog>>
 
 N == Len(reqs)
 WireLen == IF N = 0 THEN 0 ELSE reqs[N].end
@@ -48,16 +49,16 @@ BodyLen(i) == reqs[i].bodyLen
 
 InitWith(rs, c) ==
     /\ reqs = rs /\ cfg = c /\ sent = 0 /\ eof = FALSE /\ rd = 0 /\ phase = "idle" /\ cur = 1 /\ cons = 0 /\ interim = FALSE
-    /\ hlog = << >> /\ out = << >> /\ topen = FALSE /\ tlog = << >>
+    /\ hlog = << >> /\ out = << >> /\ topen = FALSE /\ pairReq = 0 /\ tlog = << >>
 
 -----------------------------------------------------------------------------
 (* network *)
 Deliver(n) == /\ n >= 1 /\ sent + n <= WireLen /\ ~eof
               /\ sent' = sent + n
-              /\ UNCHANGED <<reqs, cfg, eof, rd, phase, cur, cons, interim, hlog, out, topen, tlog>>
+              /\ UNCHANGED <<reqs, cfg, eof, rd, phase, cur, cons, interim, hlog, out, topen, pairReq, tlog>>
 
 PeerEOF == /\ sent = WireLen /\ ~eof /\ eof' = TRUE
-           /\ UNCHANGED <<reqs, cfg, sent, rd, phase, cur, cons, interim, hlog, out, topen, tlog>>
+           /\ UNCHANGED <<reqs, cfg, sent, rd, phase, cur, cons, interim, hlog, out, topen, pairReq, tlog>>
 
 -----------------------------------------------------------------------------
 (* server *)
@@ -65,11 +66,20 @@ PeerEOF == /\ sent = WireLen /\ ~eof /\ eof' = TRUE
 \* bytes that must have arrived before the handler of request i can be called
 Need(i) == IF cfg.streaming THEN reqs[i].headEnd ELSE reqs[i].end
 
-Rejectable(i) == reqs[i].bad \/ (reqs[i].big /\ ~cfg.streaming)
+\* requests the server does not hand to a handler: malformed, over the body limit (buffered mode), or cut short
+\* by the peer closing the connection
+Rejectable(i) == reqs[i].bad \/ (reqs[i].big /\ ~cfg.streaming) \/ reqs[i].partial
 
-\* tracer DoStart happens when the server starts reading a request (first byte available or first request)
-StartIfTracing == IF topen THEN UNCHANGED <<topen, tlog>>
-                  ELSE topen' = TRUE /\ tlog' = Append(tlog, [t |-> "start", req |-> 0])
+\* tracer (C19): DoStart / DoFinish.  A handler runs inside an open pair, at most one handler per pair; the finish
+\* of a pair comes after the response of the request handled in it and carries that request.
+TStart == /\ cfg.trace /\ ~topen /\ phase = "idle"
+          /\ Len(tlog) <= 2 * N        \* at most one pair per request plus one (keeps the model finite)
+          /\ topen' = TRUE /\ pairReq' = 0 /\ tlog' = Append(tlog, [t |-> "start", req |-> 0])
+          /\ UNCHANGED <<reqs, cfg, sent, eof, rd, phase, cur, cons, interim, hlog, out>>
+TFinish == /\ cfg.trace /\ topen /\ phase \in {"idle", "after", "closed"}
+           /\ topen' = FALSE /\ pairReq' = 0 /\ tlog' = Append(tlog, [t |-> "finish", req |-> pairReq])
+           /\ UNCHANGED <<reqs, cfg, sent, eof, rd, phase, cur, cons, interim, hlog, out>>
+InPair == cfg.trace => topen
 
 \* Expect: 100-continue: an interim response may be written after the head was read and before the body is
 \* read (only when the request asked for it; the property does not oblige the server to send it)
@@ -77,8 +87,8 @@ SendInterim == /\ phase = "idle" /\ cur <= N /\ ~Rejectable(cur) /\ reqs[cur].ex
                /\ sent >= reqs[cur].headEnd
                /\ interim' = TRUE
                /\ out' = Append(out, [i |-> cur, kind |-> "interim", close |-> FALSE])
-               /\ StartIfTracing
-               /\ UNCHANGED <<reqs, cfg, sent, eof, rd, phase, cur, cons, hlog>>
+               /\ InPair
+               /\ UNCHANGED <<reqs, cfg, sent, eof, rd, phase, cur, cons, hlog, topen, pairReq, tlog>>
 
 \* read head (+ body, or prefetch part of it) and call the handler
 Handle(newrd) ==
@@ -89,8 +99,9 @@ Handle(newrd) ==
     /\ rd' = newrd /\ cons' = 0
     /\ phase' = "handle"
     /\ hlog' = Append(hlog, cur)
-    /\ StartIfTracing
-    /\ UNCHANGED <<reqs, cfg, sent, eof, cur, interim, out>>
+    /\ InPair /\ (cfg.trace => pairReq = 0)
+    /\ pairReq' = IF cfg.trace THEN cur ELSE 0
+    /\ UNCHANGED <<reqs, cfg, sent, eof, cur, interim, out, topen, tlog>>
 
 \* streaming: the handler reads k more body bytes; needs them delivered, never more than the body
 StreamRead(k) ==
@@ -99,59 +110,64 @@ StreamRead(k) ==
     /\ cons' = cons + k
     \* the wire position of those bytes must have been delivered (chunk framing included: rd moves at least as far)
     /\ \E newrd \in rd .. reqs[cur].end : newrd <= sent /\ rd' = newrd
-    /\ UNCHANGED <<reqs, cfg, sent, eof, phase, cur, interim, hlog, out, topen, tlog>>
+    /\ UNCHANGED <<reqs, cfg, sent, eof, phase, cur, interim, hlog, out, topen, pairReq, tlog>>
 
 HandleEnd == /\ phase = "handle" /\ phase' = "write"
-             /\ UNCHANGED <<reqs, cfg, sent, eof, rd, cur, cons, interim, hlog, out, topen, tlog>>
+             /\ UNCHANGED <<reqs, cfg, sent, eof, rd, cur, cons, interim, hlog, out, topen, pairReq, tlog>>
 
 \* the final response; the server decides to close if the request asked for it (it may also close voluntarily)
 Respond(close) ==
-    /\ phase = "write"
+    /\ phase = "write" /\ cfg.wfail # cur
     /\ reqs[cur].close => close
     /\ out' = Append(out, [i |-> cur, kind |-> "final", close |-> close])
     /\ phase' = "after"
-    /\ UNCHANGED <<reqs, cfg, sent, eof, rd, cur, cons, interim, hlog, topen, tlog>>
+    /\ UNCHANGED <<reqs, cfg, sent, eof, rd, cur, cons, interim, hlog, topen, pairReq, tlog>>
 
 LastClose == out[Len(out)].close
-
-FinishPair(r) == /\ topen /\ topen' = FALSE /\ tlog' = Append(tlog, [t |-> "finish", req |-> r])
 
 \* after the response: close, or skip the unread rest of a streamed body and go on with the next request
 CloseAfter == /\ phase = "after" /\ LastClose
               /\ phase' = "closed"
-              /\ IF topen THEN FinishPair(cur) ELSE UNCHANGED <<topen, tlog>>
-              /\ UNCHANGED <<reqs, cfg, sent, eof, rd, cur, cons, interim, hlog, out>>
+              /\ UNCHANGED <<reqs, cfg, sent, eof, rd, cur, cons, interim, hlog, out, topen, pairReq, tlog>>
 
 \* a server may always give up on a connection whose streamed body was not read completely
 CloseUnread == /\ phase = "after" /\ cfg.streaming /\ rd < reqs[cur].end
                /\ phase' = "closed"
-               /\ IF topen THEN FinishPair(cur) ELSE UNCHANGED <<topen, tlog>>
-               /\ UNCHANGED <<reqs, cfg, sent, eof, rd, cur, cons, interim, hlog, out>>
+               /\ UNCHANGED <<reqs, cfg, sent, eof, rd, cur, cons, interim, hlog, out, topen, pairReq, tlog>>
 
 Continue == /\ phase = "after" /\ ~LastClose
             /\ sent >= reqs[cur].end            \* skipping the rest of the body needs its bytes
             /\ rd' = reqs[cur].end
             /\ cur' = cur + 1 /\ cons' = 0 /\ interim' = FALSE /\ phase' = "idle"
-            /\ IF topen THEN FinishPair(cur) ELSE UNCHANGED <<topen, tlog>>
-            /\ UNCHANGED <<reqs, cfg, sent, eof, hlog, out>>
+            /\ UNCHANGED <<reqs, cfg, sent, eof, hlog, out, topen, pairReq, tlog>>
 
-\* malformed request or (buffered mode) body over the limit: one 4xx with Connection: close, no handler, close
+\* malformed request, (buffered mode) body over the limit, or request cut short by the peer: one 4xx with
+\* Connection: close, no handler, close
 Reject == /\ phase = "idle" /\ cur <= N /\ Rejectable(cur)
           /\ sent >= reqs[cur].start + 1
+          /\ (reqs[cur].partial /\ ~reqs[cur].bad /\ ~(reqs[cur].big /\ ~cfg.streaming)) => eof
           /\ out' = Append(out, [i |-> cur, kind |-> "reject", close |-> TRUE])
           /\ phase' = "closed"
-          /\ topen' = FALSE
-          /\ tlog' = IF topen THEN Append(tlog, [t |-> "finish", req |-> 0])
-                     ELSE tlog \o <<[t |-> "start", req |-> 0], [t |-> "finish", req |-> 0]>>
-          /\ UNCHANGED <<reqs, cfg, sent, eof, rd, cur, cons, interim, hlog>>
+          /\ UNCHANGED <<reqs, cfg, sent, eof, rd, cur, cons, interim, hlog, topen, pairReq, tlog>>
+
+\* the peer closed in the middle of a request: the server may also just give up without a response
+AbortPartial == /\ phase = "idle" /\ cur <= N /\ reqs[cur].partial /\ eof
+                /\ phase' = "closed"
+                /\ UNCHANGED <<reqs, cfg, sent, eof, rd, cur, cons, interim, hlog, out, topen, pairReq, tlog>>
+
+\* writing the response of request cfg.wfail fails (connection broken): nothing more is written, close
+WriteFail == /\ phase = "write" /\ cfg.wfail = cur
+             /\ phase' = "closed"
+             /\ UNCHANGED <<reqs, cfg, sent, eof, rd, cur, cons, interim, hlog, out, topen, pairReq, tlog>>
 
 \* the peer closed (or idle time-out) between requests: quiet close, no response, no tracer call
 IdleClose == /\ phase = "idle" /\ eof /\ rd = sent /\ sent = WireLen
              /\ phase' = "closed"
-             /\ UNCHANGED <<reqs, cfg, sent, eof, rd, cur, cons, interim, hlog, out, topen, tlog>>
+             /\ UNCHANGED <<reqs, cfg, sent, eof, rd, cur, cons, interim, hlog, out, topen, pairReq, tlog>>
 
 Server == SendInterim \/ (\E x \in rd .. sent : Handle(x)) \/ (\E k \in 1 .. 3 : StreamRead(k)) \/ HandleEnd
           \/ (\E c \in BOOLEAN : Respond(c)) \/ CloseAfter \/ CloseUnread \/ Continue \/ Reject \/ IdleClose
+          \/ AbortPartial \/ WriteFail \/ TStart \/ TFinish
 Network == (\E n \in 1 .. 3 : Deliver(n)) \/ PeerEOF
 Next == Server \/ Network
 
@@ -182,13 +198,21 @@ StreamExact == cons <= (IF cur <= N THEN BodyLen(cur) ELSE 0)
 \* C19: tracer calls alternate start/finish beginning with start; a finish carries the request handled in its pair
 TracerAlternates == /\ \A k \in 1 .. Len(tlog) : tlog[k].t = (IF k % 2 = 1 THEN "start" ELSE "finish")
                     /\ topen = (Len(tlog) % 2 = 1)
+\* C19: every finish carries the request handled in its pair; no request is carried by two finishes; a handled
+\* request whose pair is closed has been finished
+FinishedReqs == {tlog[k].req : k \in {j \in DOMAIN tlog : tlog[j].t = "finish" /\ tlog[j].req # 0}}
+PairsBracket == cfg.trace =>
+                /\ \A j, k \in DOMAIN tlog : (j # k /\ tlog[j].t = "finish" /\ tlog[k].t = "finish" /\ tlog[j].req # 0) => tlog[j].req # tlog[k].req
+                /\ FinishedReqs \subseteq {hlog[j] : j \in DOMAIN hlog}
+                /\ {hlog[j] : j \in DOMAIN hlog} \ FinishedReqs \subseteq (IF topen /\ pairReq # 0 THEN {pairReq} ELSE {})
 \* nothing is written after a response that announced close
 NothingAfterClose == \A k \in 1 .. Len(out) - 1 : ~out[k].close
 
 \* C02: when the connection is over and everything was delivered, the outcome is a function of the script:
 \* the handled requests are exactly the prefix up to the first request that closes / is rejected
-FirstStop == IF \E i \in 1 .. N : reqs[i].close \/ Rejectable(i)
-             THEN CHOOSE i \in 1 .. N : (reqs[i].close \/ Rejectable(i)) /\ \A j \in 1 .. i - 1 : ~(reqs[j].close \/ Rejectable(j))
+Stops(i) == reqs[i].close \/ Rejectable(i) \/ cfg.wfail = i
+FirstStop == IF \E i \in 1 .. N : Stops(i)
+             THEN CHOOSE i \in 1 .. N : Stops(i) /\ \A j \in 1 .. i - 1 : ~Stops(j)
              ELSE N + 1
 ExpectedHandled == IF FirstStop <= N /\ Rejectable(FirstStop) THEN FirstStop - 1 ELSE IF FirstStop <= N THEN FirstStop ELSE N
 \* a voluntary server close (allowed) can only shorten the outcome; without it the outcome is exact
